@@ -55,7 +55,9 @@ type sgen struct {
 	writes   int
 	spawn    bool
 	budget   int
-	pureMid  int // functions that use no ancestor binding themselves (their descendants do)
+	pureMid  int  // functions that use no ancestor binding themselves (their descendants do)
+	failNext bool // the next function generated raises an error at the end of its body (after its closures escaped)
+	failing  int
 }
 
 func id(n string) *gen.Ident { return &gen.Ident{Name: n} }
@@ -85,6 +87,8 @@ var routes = []string{"now", "now", "ret", "ret", "global", "map-now", "filter-n
 // functions (with their levels).
 func (g *sgen) fn(level int, env []vref) *gen.FuncLit {
 	g.budget--
+	fails := g.failNext
+	g.failNext = false
 	fl := &gen.FuncLit{}
 	if g.r.Chance(1, 4) {
 		fl.Name = g.fresh("nf") // named function literal: its own name is a binding of its frame
@@ -128,6 +132,14 @@ func (g *sgen) fn(level int, env []vref) *gen.FuncLit {
 		e := mon.Pick(g.r, scope)
 		g.noteCap(level, e.level)
 		g.writes++
+		if len(scope) >= 2 && g.r.Chance(1, 4) {
+			// destructuring assignment to two bindings at once (possibly captured ones)
+			e2 := mon.Pick(g.r, scope)
+			if e2.name != e.name {
+				g.noteCap(level, e2.level)
+				return &gen.MultiDecl{Names: []string{e.name, e2.name}, X: list(&gen.Binary{Op: "+", L: id(e2.name), R: num(1 + g.r.Intn(3))}, &gen.Binary{Op: "+", L: id(e.name), R: id(d)})}
+			}
+		}
 		switch g.r.Intn(3) {
 		case 0:
 			return &gen.Assign{Target: id(e.name), Op: "+=", X: id(d)}
@@ -143,8 +155,11 @@ func (g *sgen) fn(level int, env []vref) *gen.FuncLit {
 	}
 	// children
 	var rets []gen.Expr
-	place := func(child *gen.FuncLit, scope *[]gen.Stmt, inLoop bool) {
+	place := func(child *gen.FuncLit, scope *[]gen.Stmt, inLoop bool, forceTry bool) {
 		route := mon.Pick(g.r, routes)
+		if forceTry {
+			route = "try-now"
+		}
 		if inLoop && route == "ret" {
 			route = "global" // a name declared in the loop body is not visible at the function's return
 		}
@@ -205,14 +220,19 @@ func (g *sgen) fn(level int, env []vref) *gen.FuncLit {
 					lbody = append(lbody, decl(j, &gen.Binary{Op: "*", L: id(lv), R: num(10)}))
 					inner = append(inner, vref{j, level})
 				}
-				place(g.fn(level+1, inner), &lbody, true)
+				place(g.fn(level+1, inner), &lbody, true, false)
 				f := &gen.For{Kind: "three", Init: &gen.VarDecl{Kind: ":=", Name: lv, X: num(0)}, Cond: &gen.Binary{Op: "<", L: id(lv), R: num(2)}, Post: &gen.IncDec{Name: lv, Op: "++"}, Body: lbody}
 				if g.r.Chance(1, 3) {
 					f = &gen.For{Kind: "range2", K: lv, V: g.fresh("e"), Iter: list(num(7), num(8)), Body: lbody}
 				}
 				body = append(body, f)
 			} else {
-				place(g.fn(level+1, all), &body, false)
+				if level+1 < g.maxDepth && g.r.Chance(1, 5) {
+					g.failNext = true
+					place(g.fn(level+1, all), &body, false, true)
+				} else {
+					place(g.fn(level+1, all), &body, false, false)
+				}
 			}
 			if g.r.Chance(1, 2) {
 				body = append(body, mutate(own)) // the creator keeps changing the bindings after creation
@@ -227,6 +247,12 @@ func (g *sgen) fn(level int, env []vref) *gen.FuncLit {
 		view = append(view, id(e.name))
 	}
 	body = append(body, logStmt(1000+level, view...))
+	if fails {
+		// this activation ends in an error after the closures it made have escaped (the caller survives it
+		// with try): the bindings those closures captured stay what they were
+		g.failing++
+		body = append(body, es(call(id("error"), &gen.StrLit{V: fmt.Sprintf("fail%d", g.n)})))
+	}
 	switch {
 	case len(rets) == 0:
 		body = append(body, &gen.Return{X: &gen.Binary{Op: "+", L: id(d), R: view[0]}})
